@@ -75,8 +75,14 @@ func pubSnap(root string) map[string]pubEnt {
 	return m
 }
 
-func runHost(home, mode string) (string, string, error) {
+func runHost(home, mode string) (string, string, error) { return runHostTraced(home, mode, "") }
+
+// runHostTraced runs the host program, under strace when trace names a file.
+func runHostTraced(home, mode, trace string) (string, string, error) {
 	cmd := exec.Command(os.Args[0])
+	if trace != "" {
+		cmd = verifrt.StraceCommand(trace, os.Args[0])
+	}
 	env := []string{}
 	for _, kv := range os.Environ() {
 		k := strings.SplitN(kv, "=", 2)[0]
@@ -98,7 +104,7 @@ func TestVerifPublic(t *testing.T) {
 	c05 := verifrt.NewResult("C05.public")
 	c02 := verifrt.NewResult("C02.public")
 	c05.Rule = "a host program (this binary re-executed) calls counter.Open/OpenAndRotate, Inc, Add, New().Add, NewStack().Inc, CountFlags and twelve 3.8 KB counter names (file growth) with the user configuration directory in hostile states: missing, a regular file, local a file / dangling symlink / symlink loop, weekends a directory / empty / garbage, mode a directory / garbage, and the process's own counter file (created by a first healthy run, then) emptied, truncated, replaced by random bytes, by a directory, by a file with other metadata, or damaged in header length / limit / bucket heads / links (self, ring) / name lengths. Oracle: the host prints HOST-OK and exits 0 within the watchdog. distinct = distinct states"
-	c02.Rule = "the same host program with the mode file reading off (plain, dated, with surrounding blanks) over empty, populated and partially populated directories: the directory snapshot (names, types, content hashes) is identical afterwards. distinct = distinct (mode text, directory) pairs"
+	c02.Rule = "the same host program with the mode file reading off (plain, dated, with surrounding blanks) over empty, populated and partially populated directories: the directory snapshot (names, types, content hashes) is identical afterwards, and the host's system calls recorded by strace -f (opens with O_CREAT/O_TRUNC, unlink, rename, mkdir, truncate, chmod, utimensat, write/pwrite to fds decoded with -y) contain no successful creating/changing/removing call on a *.count or *.json path under the telemetry directory. distinct = distinct (mode text, directory) pairs"
 	base, _ := os.MkdirTemp(os.Getenv("VERIF_TMP"), "pub-")
 	defer os.RemoveAll(base)
 	n := verifrt.Scale(80, 2000)
@@ -121,13 +127,59 @@ func TestVerifPublic(t *testing.T) {
 				os.MkdirAll(local, 0o777)
 				os.WriteFile(filepath.Join(local, "weekends"), []byte("1\n"), 0o666)
 			default:
-				// a directory populated by an earlier healthy run
-				runHost(home, "open")
+				// a directory populated by an earlier healthy run; it doubles as the
+				// witness's self-test: the trace of a run that is allowed to write
+				// must show the counter file being created
+				ptrace := filepath.Join(base, fmt.Sprintf("ptrace-%d.txt", i))
+				runHostTraced(home, "open", ptrace)
+				if evs, err := verifrt.ParseStrace(ptrace); err == nil {
+					for _, ev := range evs {
+						for _, p := range ev.Paths {
+							if strings.HasPrefix(p, tdir) && strings.HasSuffix(p, ".count") && ev.Mutation() == "open-create" {
+								c02.Hit("witness-sees-counter-file-creation")
+							}
+						}
+					}
+				}
+				os.Remove(ptrace)
 			}
 			os.WriteFile(filepath.Join(tdir, "mode"), []byte(modeText), 0o666)
 			before := pubSnap(home)
-			out, errOut, err := runHost(home, hostMode)
+			trace := filepath.Join(base, fmt.Sprintf("trace-%d.txt", i))
+			out, errOut, err := runHostTraced(home, hostMode, trace)
 			after := pubSnap(home)
+			// second witness: the system calls of the host process
+			if evs, terr := verifrt.ParseStrace(trace); terr != nil || len(evs) == 0 {
+				c02.Inconc(fmt.Sprintf("no strace witness for case %d: %v (%d events)", i, terr, len(evs)))
+			} else {
+				c02.HitN("syscalls-observed", len(evs))
+				under := 0
+				for _, ev := range evs {
+					for _, p := range ev.Paths {
+						if !strings.HasPrefix(p, tdir+string(filepath.Separator)) {
+							continue
+						}
+						under++
+						rel, _ := filepath.Rel(home, p)
+						mut := ev.Mutation()
+						if mut == "open-create" {
+							if _, existed := before[rel]; existed {
+								mut = ""
+							}
+						}
+						isData := strings.HasSuffix(p, ".count") || strings.HasSuffix(p, ".json")
+						if mut != "" && isData {
+							c02.Violate("off-counter-api-syscall:"+mut, fmt.Sprintf("mode file %q: the host process made the system call %s(%s) = %d on a counter file/report", modeText, ev.Name, ev.Args, ev.Ret),
+								verifrt.CaseReplay(i, map[string]any{"mode": modeText, "syscall": ev.Name + "(" + ev.Args + ")"}))
+						} else if mut != "" {
+							c02.Hit("syscall-mutation-on-non-data:" + mut)
+						}
+					}
+				}
+				c02.HitN("syscalls-under-telemetry-dir", under)
+				c02.Hit("strace-witness")
+			}
+			os.Remove(trace)
 			c02.Eval()
 			c02.Distinct(fmt.Sprintf("%q/%d", modeText, len(before)))
 			rp := verifrt.CaseReplay(i, map[string]any{"mode": modeText, "stderr": fmt.Sprintf("%.300s", errOut)})
@@ -314,7 +366,7 @@ func TestVerifPublic(t *testing.T) {
 		os.RemoveAll(home)
 	}
 	c05.Require("state:dir-missing", "state:local-is-file", "state:own-file-links", "state:own-file-limit", "state:own-file-random", "state:healthy-rerun", "own-file-damaged")
-	c02.Require("mode-off-run", "populated-dir")
+	c02.Require("mode-off-run", "populated-dir", "strace-witness", "witness-sees-counter-file-creation", "syscalls-under-telemetry-dir")
 	for _, r := range []*verifrt.Result{c05, c02} {
 		if err := r.Write(); err != nil {
 			t.Fatal(err)
